@@ -302,7 +302,7 @@ Proof.
     destruct mx as [|[|m]|y]; rewrite ?bound_val_sh; auto;
       destruct (bound_val E mn) as [a|]; auto;
       match goal with |- context [bound_val E ?bb] => destruct (bound_val E bb) as [b0|]; auto end;
-      destruct (bounds_conflict a b0); auto; exact (rep_sh k _ _ n e a b0 p [] Hrel).
+      (pose proof (rep_sh k _ _ n e a b0 p [] Hrel) as Hr; cbn [map] in Hr; rewrite Hr; destruct (bounds_conflict a b0); [destruct (rep_spec (P' n E) n e a b0 p []); reflexivity | reflexivity]).
   - (* Expect *) rewrite (IH e E p Hnb). destruct (P' n E e p); cbn [shr]; auto.
   - (* ExpectNot *) rewrite (IH e E p Hnb). destruct (P' n E e p); cbn [shr]; auto.
   - (* Skip *) apply nobt_Forall in Hnb. exact (skip_sh k _ _ n es p (HF es E Hnb)).
